@@ -1,4 +1,5 @@
 import GoLevel.Proofs.RefLoopStep
+import GoLevel.Props.C07Full
 /-! # C07 — file deletion
 
 "The DB never removes a file that the current state, an unreleased iterator or an in-flight read still needs: an
@@ -21,8 +22,12 @@ Environment hypotheses (`EnvStep`, `Env.WF` in `Proofs/RefLoopInv.lean`), all ex
   commit after every `Open`** (`session.commit` → `newManifest(r, nv)` adds every table of `nv` to
   `r.addedTables` again, and `setVersion` builds the delta from it): see `delta_once_needed`;
 * a table that left the version never comes back (`Env.WF.mono`).
-Not covered by the theorems (but by the model and the trace differential): abandoned version ids, and the
-release of the last version at `Close` (which comes without a delta). -/
+The theorems of THIS file keep these hypotheses (they are the simplest statement of the argument).
+`Props/C07Full.lean` removes them: abandoned version ids at any point, trivial-move deltas (a table on both
+sides), the empty delta of `session.recover`, the shutdown messages of `session.close`, file-number reuse, and
+the producers (`session.setVersion/commit/recover/close`, reader pins) modelled over the LSM versions so that
+"consecutive ids, exact duplicate-free deltas" are lemmas (`no_premature_delete_full`, `eventual_delete_full`,
+`producer_…`, `shutdown_…`, `no_remove_of_reused_number`). -/
 namespace GoLevel.C07
 open GoLevel.RefLoop
 
@@ -249,6 +254,16 @@ example : sweep [4, 9] 12 11 [⟨.table, 4⟩, ⟨.table, 7⟩, ⟨.table, 9⟩,
 /-- The property theorems of C07 (for the audit). -/
 def theorems : List String :=
   ["GoLevel.C07.no_premature_delete", "GoLevel.C07.eventual_delete", "GoLevel.C07.removed_at_most_once",
-   "GoLevel.C07.delta_once_needed", "GoLevel.C07.startup_sweep"]
+   "GoLevel.C07.delta_once_needed", "GoLevel.C07.startup_sweep",
+   "GoLevel.C07.no_premature_delete_msgs", "GoLevel.C07.eventual_delete_msgs",
+   "GoLevel.C07.removed_at_most_once_msgs", "GoLevel.C07.no_premature_delete_full",
+   "GoLevel.C07.eventual_delete_full", "GoLevel.C07.used_covers_held",
+   "GoLevel.C07.producer_added_once", "GoLevel.C07.producer_delta_exact",
+   "GoLevel.C07.producer_first_delta_exact", "GoLevel.C07.producer_ids", "GoLevel.C07.producer_edit_facts",
+   "GoLevel.C07.code_producer_facts",
+   "GoLevel.C07.shutdown_frontier", "GoLevel.C07.code_close_order", "GoLevel.C07.shutdown_removes_nothing",
+   "GoLevel.C07.shutdown_requests_live_table",
+   "GoLevel.C07.code_reuse_in_callback", "GoLevel.C07.no_remove_of_reused_number",
+   "GoLevel.C07.code_no_remove_of_reused_number", "GoLevel.C07.early_reuse_removes_new_file"]
 
 end GoLevel.C07
